@@ -147,12 +147,13 @@ pub fn check(a: &Analysis, obs: &mut Obs) -> Vec<Violation> {
                 out.push(v("video|last-delta".into(), format!("last sample duration {} != preceding interval {}", deltas[n - 1], deltas[n - 2])));
             }
             let sum: u64 = deltas.iter().map(|&d| d as u64).sum();
-            if sum <= u32::MAX as u64 || vt.mdhd.version == 1 {
-                if vt.mdhd.duration != sum {
-                    out.push(v("video|mdhd-duration".into(), format!("mdhd duration {} != sum of sample durations {}", vt.mdhd.duration, sum)));
-                }
-            } else {
-                obs.count("mdhd_clause_delegated_to_C16", 1);
+            // (a track longer than 2^32 ticks needs the version-1 box; a version-0 box cannot
+            // hold the sum and is reported here as well)
+            if vt.mdhd.duration != sum {
+                out.push(v("video|mdhd-duration".into(), format!("mdhd (version {}) duration {} != sum of sample durations {}", vt.mdhd.version, vt.mdhd.duration, sum)));
+            }
+            if sum > u32::MAX as u64 {
+                obs.count("tracks_longer_than_2^32_ticks", 1);
             }
         }
     }
@@ -178,12 +179,11 @@ pub fn check(a: &Analysis, obs: &mut Obs) -> Vec<Violation> {
                 out.push(v("audio|ctts-presence".into(), "audio track carries a ctts".into()));
             }
             let sum: u64 = deltas.iter().map(|&d| d as u64).sum();
-            if sum <= u32::MAX as u64 || at.mdhd.version == 1 {
-                if at.mdhd.duration != sum {
-                    out.push(v("audio|mdhd-duration".into(), format!("mdhd duration {} != sum of sample durations {}", at.mdhd.duration, sum)));
-                }
-            } else {
-                obs.count("mdhd_clause_delegated_to_C16", 1);
+            if at.mdhd.duration != sum {
+                out.push(v("audio|mdhd-duration".into(), format!("mdhd (version {}) duration {} != sum of sample durations {}", at.mdhd.version, at.mdhd.duration, sum)));
+            }
+            if sum > u32::MAX as u64 {
+                obs.count("tracks_longer_than_2^32_ticks", 1);
             }
         }
     }
